@@ -4,6 +4,10 @@ import (
 	"context"
 	"errors"
 
+	"github.com/go-kratos/kratos/v2/metadata"
+	"github.com/go-kratos/kratos/v2/selector"
+	"github.com/go-kratos/kratos/v2/transport"
+
 	rt "github.com/alibaba/sentinel-golang/pkg/adapters/kitex/zzverif/verifrt" // the kratos module declares the kitex module path
 )
 
@@ -21,6 +25,9 @@ func verifHandlerMode(o *verifOutcome, mode int) error {
 	case 1:
 		return errors.New("handler failed")
 	case 2:
+		if rt.Bool("panicWithError") {
+			panic(errors.New("handler panics with an error value"))
+		}
 		panic("handler panics")
 	}
 	return nil
@@ -92,4 +99,41 @@ func VerifC19Client() {
 	}
 	// the outlier branch has no fallback of its own and traces only when the peer node is known
 	verifEnd(blocked, mode, o, fallbackUsed, fallbackSet && !outlierOn, panicked, !outlierOn)
+}
+
+// ---- outlier branch ----
+
+type verifTransport struct{}
+
+func (verifTransport) Kind() transport.Kind            { return transport.KindGRPC }
+func (verifTransport) Endpoint() string                { return "discovery:///svc" }
+func (verifTransport) Operation() string               { return "/op" }
+func (verifTransport) RequestHeader() transport.Header { return nil }
+func (verifTransport) ReplyHeader() transport.Header   { return nil }
+
+// VerifC19ClientOutlier: the client middleware with outlier ejection enabled. The kratos context
+// accessors are replaced by harness functions (a transport is present, client metadata is present or
+// not, no peer).
+func VerifC19ClientOutlier() {
+	blocked, mode, fallbackSet := verifSetup()
+	o := &verifOutcome{}
+	fallbackUsed := false
+	md := metadata.Metadata{}
+	hasMd := rt.Bool("hasMetadata")
+	rt.RedirectCall("github.com/go-kratos/kratos/v2/transport.FromClientContext", func(ctx context.Context) (transport.Transporter, bool) { return verifTransport{}, true })
+	rt.RedirectCall("github.com/go-kratos/kratos/v2/metadata.FromClientContext", func(ctx context.Context) (metadata.Metadata, bool) { return md, hasMd })
+	rt.RedirectCall("github.com/go-kratos/kratos/v2/selector.FromPeerContext", func(ctx context.Context) (*selector.Peer, bool) { return nil, false })
+	opts := []Option{WithEnableOutlier(func(context.Context) bool { return true })}
+	if fallbackSet {
+		opts = append(opts, WithBlockFallback(func(ctx context.Context, req interface{}, blockErr error) (interface{}, error) {
+			fallbackUsed = true
+			return nil, nil
+		}))
+	}
+	h := SentinelClientMiddleware(opts...)(func(ctx context.Context, req interface{}) (interface{}, error) {
+		return nil, verifHandlerMode(o, mode)
+	})
+	panicked := !verifNoPanic(func() { h(context.Background(), nil) })
+	// error tracing in this branch depends on a selected peer, which the harness does not provide
+	verifEnd(blocked, mode, o, fallbackUsed, fallbackSet, panicked, false)
 }
